@@ -5,8 +5,10 @@ import hirq, anchors, absx, sem
 EXPLANATION = ("A1 start(): on the path where one of the caller's controls has the paging OID the adapter returns AdapterInit before any "
                "upcall; otherwise the handle saved for follow-ups is a clone of the stream's handle with its timeout and search options and "
                "the caller's controls *without* a paging control, the stream's own handle gets those controls plus PagedResults{size: "
-               "self.page_size, cookie: empty}, base/scope/filter/attrs are saved from the same-named parameters and the upcall receives "
-               "them in order; A2 next(): anything but Ok(None) is returned unchanged; on Ok(None) the response control is looked up by "
+               "self.page_size, cookie: empty}, the upcall receives base/scope/filter/attrs in order, and when start() is left the adapter's "
+               "fields hold - whatever statement put it there: field-by-field saves, or one `*self = Self { .., ..Self::new(n) }` whose "
+               "unlisted fields take what the (evaluated) constructor puts there - the base/scope/filter/attrs this call was given and the "
+               "page size the adapter was constructed with; A2 next(): anything but Ok(None) is returned unchanged; on Ok(None) the response control is looked up by "
                "ControlType::PagedResults in the stored result and parsed as PagedResults - on every path on which the page's result is "
                "present, whatever it holds: no test on the way from the upstream's Ok(None) to the end / the follow-up / the removal (an `if`, "
                "a match guard, a literal or range inside a pattern - a pattern with several refutable parts that fails is followed once per "
@@ -188,6 +190,43 @@ def template_writers(f):
             break
     return sorted(set(out))
 
+ADAPTER_TY = PR[1:].split(' as ', 1)[0]         # the adapter's type as the impl header spells it
+
+def adapter_ctors(f):
+    """The constructors of the adapter, by role: the associated functions of the adapter's own impls that return the adapter's type
+    and take no value of it (`new` today)."""
+    out = set()
+    for k, it in f.items.items():
+        if it.get('kind') == 'AssocFn' and it.get('impl_self') == ADAPTER_TY and it.get('output') == ADAPTER_TY \
+                and not any(hirq.strip_refs(str(i)) == ADAPTER_TY for i in it.get('inputs') or []) and f.hir.get(k) is not None:
+            out.add(k)
+    return out
+
+def ctor_placeholders(f, ctors):
+    """{constructor: {field: term}} - what each field of a freshly constructed adapter holds where that is the same constant on
+    every path of the constructor (the placeholders of the parameters start() has yet to save).  Only used to word a message."""
+    out = {}
+    for c in sorted(ctors):
+        try:
+            vals = [o.val for o in absx.Interp(f, hirq.Body(f, f.body(c))).run() if o.kind in ('val', 'ret')]
+        except Exception:
+            continue
+        if vals and all(v[0] == 'struct' for v in vals):
+            names = {n for v in vals for n, t in v[2]}
+            out[c] = {n: absx.field_term(vals[0], n) for n in names if all(absx.field_term(v, n) == absx.field_term(vals[0], n) for v in vals)
+                      and not absx.leaves(absx.field_term(vals[0], n), lambda x: x[0] == 'param')}
+    return out
+
+def saved_parameter_fault(fld, what, have, want, placeholders):
+    """Words what the adapter's field `fld` holds when start() is left, where that is not the argument `want` it was called with."""
+    if have is None:
+        return 'start() does not save the %s it was given (self.%s keeps what the constructor or an earlier search left there): follow-up pages go out with another %s' % (what, fld, what)
+    src = next((c for c, d in sorted(placeholders.items()) if d.get(fld) == have), None)
+    if src is not None:
+        name = '::'.join(x for x in src.split('::') if not x.startswith('<'))
+        return 'the saved %s is the placeholder %s of %s, not the %s start() was given: follow-up pages go out with another %s' % (what, absx.fmt(have)[:60], '::'.join(name.split('::')[-2:]), what, what)
+    return 'the saved %s is %s, not the %s start() was given (%s): follow-up pages go out with another %s' % (what, absx.fmt(have)[:80], what, absx.fmt(want), what)
+
 def run(ctx):
     f = ctx.facts
     # ------------------------------------------------------------------ A1 start
@@ -197,7 +236,18 @@ def run(ctx):
         ctx.analysed['bodies'].add(HANDLE_FN)
     # the stream's handle is whatever the accessor hands out: its body is evaluated (today `&mut self.ldap`), so that a store through
     # the reference it returns and a store to stream.ldap are the same store
-    outs = absx.Interp(f, B, unroll=1, for_once=True, combinators=True, places=True, inline=lambda cal: cal == HANDLE_FN).run(root=inner(B.root))
+    # ... and a constructor of the adapter called on the way (the base of a struct update, `..Self::new(n)`) is evaluated too: which
+    # values its fields start with is what an unlisted field of the update ends up holding
+    ctors = adapter_ctors(f)
+    placeholders = ctor_placeholders(f, ctors)
+    inlined = set()
+    def inline_start(cal):
+        if cal == HANDLE_FN or cal in ctors:
+            inlined.add(cal)
+            return True
+        return False
+    outs = absx.Interp(f, B, unroll=1, for_once=True, combinators=True, places=True, inline=inline_start).run(root=inner(B.root))
+    ctx.analysed['bodies'].update(c for c in inlined if c in ctors)
     seen = set()
     template_clean = []       # per path of start() that saves the template: it holds no control with the paging OID
     is_oid_test = lambda a: a[0] == 'bin' and a[1] == 'Eq' and a[3] == ('lit', OID) and a[2][0] == 'field' and a[2][2] == 'ctype'
@@ -257,8 +307,18 @@ def run(ctx):
             and is_paging(segs[-1][1], lambda s: s == ('field', SELF, 'page_size'), lambda c: c == ('vec', ()))
         ctx.add('A1.first-request-control', 'stream.ldap.controls', loc(B.root), okp,
                 'the first request must carry the caller\'s controls plus PagedResults{size: self.page_size, cookie: empty}: %s' % absx.fmt(stc)[:120])
-        oks = all(h.get(('field', SELF, n)) == ('param', n) for n in ('base', 'scope', 'filter')) and h.get(('field', SELF, 'attrs')) == ('ctor', 'Some', (('param', 'attrs'),))
-        ctx.add('A1.saves-search-parameters', 'base/scope/filter/attrs', loc(B.root), oks, 'the search parameters are not saved from the same-named arguments')
+        # what the adapter's fields hold when start() is left (whatever statement put it there: a field-by-field save, a wholesale
+        # `*self = Self { .., ..Self::new(n) }` whose unlisted fields take the constructor's values): the Search parameters a
+        # follow-up is rebuilt from ARE the arguments this call of start() was given, the page size is the one the adapter had
+        wrong = [saved_parameter_fault(fld, what, h.get(('field', SELF, fld)), want, placeholders)
+                 for fld, what, want in (('base', 'base', ('param', 'base')), ('scope', 'scope', ('param', 'scope')), ('filter', 'filter', ('param', 'filter')),
+                                         ('attrs', 'attribute list', ('ctor', 'Some', (('param', 'attrs'),))))
+                 if h.get(('field', SELF, fld)) != want]
+        ctx.add('A1.saves-search-parameters', 'base/scope/filter/attrs', loc(B.root), not wrong, 'the search parameters are not saved from the arguments start() was called with' + (': ' + '; '.join(wrong) if wrong else ''))
+        size = h.get(('field', SELF, 'page_size'), ('field', SELF, 'page_size'))
+        ctx.add('A1.keeps-page-size', 'self.page_size', loc(B.root), size == ('field', SELF, 'page_size'),
+                'start() leaves %s in the adapter as the page size, not the size the adapter was constructed with: the first request asks for pages of the requested size, '
+                'every follow-up for pages of another' % absx.fmt(size)[:80])
         oku = len(up) == 1 and up[0][2] == (STREAM, ('param', 'base'), ('param', 'scope'), ('param', 'filter'), ('param', 'attrs')) and o.val == ('await', ('call', up[0][1], up[0][2], up[0][3].get('id')))
         ctx.add('A1.upcall', 'stream.start', loc(B.root), oku, 'the upcall does not receive (base, scope, filter, attrs) in order or its result is not returned')
     flag_form = any(e[0] == 'loop-carried' and e[3]['k'] == 'Closure' for o in outs for e in o.st.ev)
